@@ -912,6 +912,83 @@ impl Harness for Scenario {
     }
 }
 
+/// C10, phase ready-bursts: a stream that has a whole burst of items ready (5 or 40, produced before the
+/// server runs again) while 1 or 2 other clients' calls arrive: every connection gets exactly what the
+/// model says, and no such call is handed to the service only after the whole burst went out to the
+/// subscriber ("while the stream is open other clients are still served").
+struct Bursts;
+
+impl Harness for Bursts {
+    fn run(&self, cx: &Ctx) -> Verdict {
+        let fail = |(class, detail): Fail| Verdict::Fail(xplore::Violation { class, detail });
+        let mut sim = Sim::new(cx, false, false);
+        let others = 1 + cx.choose(2, "other-clients");
+        let n = [5usize, 40][cx.choose(2, "burst-size")];
+        let ends = cx.choose(2, "stream-ends") == 1;
+        let watcher_first = cx.choose(2, "watcher-connects-first") == 1;
+        let calls_first = cx.choose(2, "calls-arrive-before-the-items-are-produced") == 1;
+        let mut ids = Vec::new();
+        if watcher_first {
+            ids.push(sim.connect());
+        }
+        let mut other_ids = Vec::new();
+        for _ in 0..others {
+            other_ids.push(sim.connect());
+        }
+        if !watcher_first {
+            ids.push(sim.connect());
+        }
+        let a = ids[0];
+        if let Err(e) = sim.settle() {
+            return fail(e);
+        }
+        let b = sim.make_burst(a, &[CK::W(n as u8, ends)]);
+        let k = b[0].id;
+        sim.send(a, b, None);
+        if let Err(e) = sim.settle() {
+            return fail(e);
+        }
+        let aw = sim.conns[a].wire.clone();
+        *sim.shared.probe.borrow_mut() = Some(Box::new(move || aw.0.borrow().writes.len() as u64));
+        let kinds = [CK::P, CK::F, CK::B];
+        let mut sent = Vec::new();
+        let mut send_calls = |sim: &mut Sim<'_>| {
+            for o in &other_ids {
+                let kind = kinds[cx.choose(kinds.len(), "other-client-call")];
+                let b = sim.make_burst(*o, &[kind]);
+                sent.push(b[0].id);
+                sim.send(*o, b, None);
+            }
+        };
+        if calls_first {
+            send_calls(&mut sim);
+        }
+        for _ in 0..n {
+            sim.produce(k);
+        }
+        if !calls_first {
+            send_calls(&mut sim);
+        }
+        cx.goal("other-client-calls-while-a-burst-of-items-is-ready");
+        if let Err(e) = sim.settle() {
+            return fail(e);
+        }
+        for h in sim.shared.log.borrow().iter() {
+            if sent.contains(&h.id) && h.epoch >= n as u64 {
+                return fail(("server:call-waited-for-a-whole-burst-of-another-clients-stream".into(), format!("call {} arrived together with a burst of {n} ready items of stream {k}; the service was handed it only after {} items had been written to the subscriber", h.id, h.epoch)));
+            }
+        }
+        *sim.shared.probe.borrow_mut() = None;
+        if ends {
+            sim.end_stream(k);
+        }
+        match sim.finish() {
+            Ok(()) => Verdict::Pass(sim.hash.get()),
+            Err(e) => fail(e),
+        }
+    }
+}
+
 fn run_plan(prop: &str, tier: Tier, rule: &str, assumptions: Vec<String>, goals: &[&str], plan: Vec<(&str, ScenCfg, u32)>) -> i32 {
     run_plan_with(prop, tier, rule, assumptions, goals, plan, &[])
 }
@@ -929,6 +1006,10 @@ fn run_plan_with(prop: &str, tier: Tier, rule: &str, assumptions: Vec<String>, g
         let c = Config { budget, max_wall: wall, ..Default::default() };
         let h = Scenario(cfg);
         rep.add(explore(name, h.0.to_json(), &h, &c));
+    }
+    if prop == "C10" {
+        rep.require_goal("other-client-calls-while-a-burst-of-items-is-ready");
+        rep.add(explore("ready-bursts/5-or-40-items/1-2-other-clients", json!({"burst_streams": true}), &Bursts, &Config { budget: 0, max_wall: wall, ..Default::default() }));
     }
     for (bin, sub, phase, child_goals) in children.iter().copied() {
         for g in child_goals {
@@ -1086,6 +1167,9 @@ pub fn run_c10(tier: Tier) -> i32 {
 pub fn replay(v: &Value) -> Replayed {
     if let Some(r) = crate::common::replay_child(v) {
         return r;
+    }
+    if v["harness"]["burst_streams"] == true {
+        return replay_dfs(&Bursts, v);
     }
     match ScenCfg::from_json(&v["harness"]) {
         Some(c) => replay_dfs(&Scenario(c), v),
